@@ -18,4 +18,6 @@ func VerifNewEnqueueHandler(c *Context) EnqueueHandler { return newEnqueueHandle
 func (w *CronWorker) VerifSchedule() *cronschedule.Schedule { return w.schedule }
 
 // VerifPending returns the number of added and updated JobConfigs waiting to be flushed by the CronWorker.
-func (c *Context) VerifPending() (added, updated int) { return len(c.addedConfigs), len(c.updatedConfigs) }
+func (c *Context) VerifPending() (added, updated int) {
+	return len(c.addedConfigs), len(c.updatedConfigs)
+}
